@@ -679,8 +679,19 @@ fn parse_type(p: &mut Parser) -> Result<Option<Type>, ErrorSet> {
     Ok(lhs)
 }
 
-/// Parse a type atom
+/// Parse a type atom, followed by any number of `?` suffixes
+///
+/// `A?` is the notation that types are displayed in for the option type `1 + A`.
 fn parse_type_atom(p: &mut Parser) -> Result<Option<Type>, ErrorSet> {
+    let mut ty = parse_type_atom_no_suffix(p)?;
+    while p.eat(&Token::Question) {
+        ty = ty.map(|some| Type::Sum(Box::new(Type::One), Box::new(some)));
+    }
+    Ok(ty)
+}
+
+/// Parse a type atom
+fn parse_type_atom_no_suffix(p: &mut Parser) -> Result<Option<Type>, ErrorSet> {
     match p.peek().cloned() {
         Some(Token::One) => {
             p.advance();
